@@ -22,6 +22,18 @@ package annotations
 //@ ensures implies(!hasAttr(holder, attribute), result == "")
 //@ ensures implies(hasAttr(holder, attribute), forall(k, 0, len(holder.attributes), implies(isFirst(holder, attribute, k), result == holder.attributes[k].Value)))
 
+//@ spec isParamAnnName(n string) bool = n == "Path" || n == "Query" || n == "Header" || n == "FormField" || n == "Body"
+//@ spec isFirstParamAnn(h AnnotationHolder, v string, k int) bool = 0 <= k && k < len(h.attributes) && h.attributes[k].Value == v && isParamAnnName(h.attributes[k].Name) && forall(j, 0, k, !(h.attributes[j].Value == v && isParamAnnName(h.attributes[j].Name)))
+//@ spec hasParamAnn(h AnnotationHolder, v string) bool = exists(k, 0, len(h.attributes), h.attributes[k].Value == v && isParamAnnName(h.attributes[k].Name))
+
+// The parameter-binding annotation (@Path/@Query/@Header/@FormField/@Body) that references a function parameter.
+//@ func AnnotationHolder.FindFirstParamAnnotationByValue props C06,C10,C14
+//@ ensures none: (result == nil) == !hasParamAnn(holder, value)
+//@ ensures match: implies(result != nil, result.Value == value && isParamAnnName(result.Name))
+//@ ensures first: implies(result != nil, forall(k, 0, len(holder.attributes), implies(isFirstParamAnn(holder, value, k), *result == holder.attributes[k])))
+//@ ensures fresh: implies(result != nil, fresh(result))
+//@ loop 0 invariant 0 <= _n && _n <= len(holder.attributes) && forall(k, 0, _n, !(holder.attributes[k].Value == value && isParamAnnName(holder.attributes[k].Name)))
+
 //@ func AnnotationHolder.FindFirstByValue props C06,C10,C14
 //@ ensures none: implies(result == nil, forall(k, 0, len(holder.attributes), holder.attributes[k].Value != value))
 //@ ensures first: implies(result != nil, exists(k, 0, len(holder.attributes), holder.attributes[k].Value == value) && forall(k, 0, len(holder.attributes), implies(isFirstByValue(holder, value, k), *result == holder.attributes[k])))
